@@ -171,7 +171,17 @@ func cmdConc(args []string) int {
 					ops = append(ops, concOp{Op: "reserve", ID: seated[r.Intn(len(seated))], Seat: -1, Chips: int64(1 + r.Intn(5))}) // re-buy
 				default:
 					next++
-					ops = append(ops, concOp{Op: "update", Joins: [][]interface{}{{fmt.Sprintf("p%d", next), -1, 3}}})
+					if len(seated) >= 2 && r.Intn(2) == 0 {
+						// two batch updates that collide: each lets one seated player go and brings a newcomer to the SAME seat
+						seat := r.Intn(n)
+						i1 := r.Intn(len(seated))
+						i2 := (i1 + 1 + r.Intn(len(seated)-1)) % len(seated)
+						ops = append(ops, concOp{Op: "update", IDs: []string{seated[i1]}, Joins: [][]interface{}{{fmt.Sprintf("p%d", next), seat, 3}}})
+						next++
+						ops = append(ops, concOp{Op: "update", IDs: []string{seated[i2]}, Joins: [][]interface{}{{fmt.Sprintf("p%d", next), seat, 4}}})
+					} else {
+						ops = append(ops, concOp{Op: "update", Joins: [][]interface{}{{fmt.Sprintf("p%d", next), -1, 3}}})
+					}
 				}
 			}
 			pre := rec.project(te, nil)
@@ -193,7 +203,7 @@ func cmdConc(args []string) int {
 						for _, jn := range o.Joins {
 							jp = append(jp, pt.JoinPlayer{PlayerID: jn[0].(string), Seat: jn[1].(int), RedeemChips: int64(jn[2].(int))})
 						}
-						_, err := te.UpdateTablePlayers(jp, nil)
+						_, err := te.UpdateTablePlayers(jp, o.IDs)
 						o.Res = errNameT(err)
 					}
 				}(j)
